@@ -204,11 +204,11 @@ class Output(BaseOutput):
 
                 for att, value in conf["attributes"].items():
                     # Replace string "reference_time" with actual reference time
-                    if "reference_time" in value:
-                        new_value = value.replace(
+                    if isinstance(value, str) and "reference_time" in value:
+                        value = value.replace(
                             "reference_time", str(self.timer.reference_time)
                         )
-                        setattr(v, att, new_value)
+                    setattr(v, att, value)
 
         if self.global_attributes is not None:
             for att, value in self.global_attributes.items():
